@@ -28,6 +28,24 @@ SHADOW = ("#![allow(dead_code, non_camel_case_types, non_upper_case_globals, unu
           + "".join("macro_rules! %s { ($($t:tt)*) => { ::core::compile_error!(\"shadowed macro `%s` was picked up from the caller's scope\") }; }\n" % (m, m) for m in MACROS))
 
 
+# A fourth scope: an ordinary module (prelude present) that brings a blanket-implemented trait into scope whose methods are
+# named like the std methods an expansion could be tempted to call with method syntax (`x.into()`, `x.as_ref()`,
+# `iter.sum()`, `x.clone()` ...).  A path-qualified call (`<T as Trait>::m(x)`) is unaffected; `x.m()` becomes ambiguous
+# (E0034) or silently calls the local method.
+# Only methods of PRELUDE traits (the property speaks of prelude names shadowed by local items): Into, TryInto, AsRef,
+# AsMut, Clone, ToString, ToOwned, IntoIterator, Iterator, DoubleEndedIterator, ExactSizeIterator, Extend, PartialEq,
+# PartialOrd, Ord, Drop.  (Operator traits and derive_more's own helper traits are not prelude names.)
+HOSTILE_BY_VALUE = "into try_into into_iter sum product fold map rev count last min max collect filter zip chain enumerate".split()
+HOSTILE_BY_REF = "as_ref to_string to_owned clone eq ne cmp partial_cmp lt le gt ge len".split()
+HOSTILE_BY_MUT = "as_mut next next_back extend clone_from".split()
+MSHADOW = ("#![allow(dead_code, unused_imports, unused_variables)]\npub struct Hostile;\npub trait HostileMethods {\n"
+           + "".join("    fn %s(self) -> Hostile where Self: ::core::marker::Sized { Hostile }\n" % m for m in HOSTILE_BY_VALUE)
+           + "".join("    fn %s(&self) -> Hostile { Hostile }\n" % m for m in HOSTILE_BY_REF)
+           + "".join("    fn %s(&mut self) -> Hostile { Hostile }\n" % m for m in HOSTILE_BY_MUT)
+           + "}\nimpl<T: ?::core::marker::Sized> HostileMethods for T {}\n")
+HOSTILE_CALL_RE = re.compile(r"\.\s*(%s)\s*(::<[^>]*>)?\s*\(" % "|".join(HOSTILE_BY_VALUE + HOSTILE_BY_REF + HOSTILE_BY_MUT))
+
+
 def qualify(text):
     """User tokens of the corpus are already written with full paths except for the std derive names."""
     return text
@@ -57,6 +75,9 @@ def run(ctx):
         cases.append((Case("i%dc" % i, it.dims, txt, "", expect=0, meta=meta), it, "control"))
         cases.append((Case("i%dn" % i, it.dims, "#[no_implicit_prelude] pub mod noprelude { %s\n%s\n}" % (IMPORTS, txt), "", expect=0, meta=meta), it, "no_implicit_prelude"))
         cases.append((Case("i%ds" % i, it.dims, "pub mod shadow { %s\n%s\n%s\n}" % (SHADOW, IMPORTS, txt), "", expect=0, meta=meta), it, "shadowed"))
+        # (items whose own attribute expressions call one of these methods are left out: that call is the user's)
+        if not HOSTILE_CALL_RE.search(it.src):
+            cases.append((Case("i%dm" % i, it.dims, "pub mod methods { %s\n%s\n%s\n}" % (MSHADOW, IMPORTS, txt), "", expect=0, meta=meta), it, "method-shadowing"))
     only = [c for c, _, _ in cases]
     header = "#![allow(warnings)]\n#![recursion_limit = \"512\"]\n"
     res = l2.build_and_run(ctx, "scopes", only, prelude=items.PRELUDE, run=False, header=header, max_rounds=10,
